@@ -52,6 +52,18 @@ fn main() {
     install_panic_hook();
     let threads = std::env::var("VERIF_THREADS").ok().and_then(|s| s.parse().ok()).unwrap_or(16);
     rayon::ThreadPoolBuilder::new().num_threads(threads).stack_size(64 << 20).build_global().unwrap();
+    if let Some(p) = &replay {
+        if let Ok(t) = std::fs::read_to_string(p) {
+            if let Ok(v) = serde_json::from_str::<serde_json::Value>(&t) {
+                if v.get("hang").and_then(|h| h.as_bool()) == Some(true) {
+                    println!("this replay file records a non-terminating evaluation; it is not re-executed:");
+                    println!("  {}", v["detail"].as_str().unwrap_or(""));
+                    println!("VIOLATION property={} replay={}", prop, p);
+                    std::process::exit(1);
+                }
+            }
+        }
+    }
     macro_rules! dispatch {
         ($($id:literal => $m:ident),* $(,)?) => {
             match (prop.as_str(), replay) {
